@@ -176,6 +176,7 @@ def parse_S(path):
 
 XMOV = {"movsd": "Xmovsd", "movq": "Xmovq", "movdqu": "Xmovdqu", "movups": "Xmovups"}
 YMOV = {"vmovdqu": "Xvmovdqu"}
+ZMOV = {"vmovdqu64": "Xvmovdqu64"}
 
 
 def c_function_body(src, fn):
@@ -190,12 +191,12 @@ def parse_moves(src, fn):
     for stmt in [s.strip() for s in c_function_body(src, fn).split(";")]:
         if not stmt:
             continue
-        m1 = re.fullmatch(r'asm volatile\("(\w+) %%([xy])mm(\d+), %0\\n"\s*:\s*"=m"\(ctx->xmm\[(\d+)\]\)\)', stmt)
-        m2 = re.fullmatch(r'asm volatile\("(\w+) %0, %%([xy])mm(\d+)\\n"\s*:\s*:\s*"m"\(ctx->xmm\[(\d+)\]\)\)', stmt)
+        m1 = re.fullmatch(r'asm volatile\("(\w+) %%([xyz])mm(\d+), %0\\n"\s*:\s*"=m"\(ctx->xmm\[(\d+)\]\)\)', stmt)
+        m2 = re.fullmatch(r'asm volatile\("(\w+) %0, %%([xyz])mm(\d+)\\n"\s*:\s*:\s*"m"\(ctx->xmm\[(\d+)\]\)\)', stmt)
         m = m1 or m2
         tab = None
         if m:
-            tab = XMOV if m.group(2) == "x" else YMOV
+            tab = {"x": XMOV, "y": YMOV, "z": ZMOV}[m.group(2)]
         if m and m.group(1) in tab and int(m.group(3)) < 16:
             if m1:
                 ops.append("XSave %s %s %s" % (tab[m.group(1)], m.group(3), m.group(4)))
@@ -213,14 +214,26 @@ def parse_arch_context(path):
     norm = lambda b: re.sub(r"\s+", " ", b).strip()
     save = norm(c_function_body(src, "mcount_save_arch_context"))
     rest = norm(c_function_body(src, "mcount_restore_arch_context"))
-    want_save = ("if (mcount_arch_have_avx < 0) mcount_arch_have_avx = mcount_arch_check_avx(); "
-                 "if (mcount_arch_have_avx) mcount_save_arch_context_avx(ctx); else mcount_save_arch_context_sse(ctx);")
-    want_rest = "if (mcount_arch_have_avx > 0) mcount_restore_arch_context_avx(ctx); else mcount_restore_arch_context_sse(ctx);"
-    if save != want_save or rest != want_rest:
-        raise Unknown("%s: mcount_save/restore_arch_context are not the expected AVX/SSE dispatchers:\n  %s\n  %s" % (path, save, rest))
-    return {k: parse_moves(src, "mcount_%s_arch_context_%s" % (a, b))
-            for k, a, b in (("save_sse", "save", "sse"), ("restore_sse", "restore", "sse"),
-                            ("save_avx", "save", "avx"), ("restore_avx", "restore", "avx"))}
+    init = "if (mcount_arch_have_avx < 0) mcount_arch_have_avx = mcount_arch_check_avx(); "
+    two_save = init + "if (mcount_arch_have_avx) mcount_save_arch_context_avx(ctx); else mcount_save_arch_context_sse(ctx);"
+    two_rest = "if (mcount_arch_have_avx > 0) mcount_restore_arch_context_avx(ctx); else mcount_restore_arch_context_sse(ctx);"
+    three_save = init + ("if (mcount_arch_have_avx == 2) mcount_save_arch_context_avx512(ctx); "
+                         "else if (mcount_arch_have_avx == 1) mcount_save_arch_context_avx(ctx); else mcount_save_arch_context_sse(ctx);")
+    three_rest = ("if (mcount_arch_have_avx == 2) mcount_restore_arch_context_avx512(ctx); "
+                  "else if (mcount_arch_have_avx == 1) mcount_restore_arch_context_avx(ctx); else mcount_restore_arch_context_sse(ctx);")
+    tiers = [("sse", "sse"), ("avx", "avx")]
+    if (save, rest) == (three_save, three_rest):
+        tiers.append(("avx512", "avx512"))
+    elif (save, rest) == (two_save, two_rest):
+        # no AVX-512 tier: a machine with zmm state runs the AVX pair (mcount_arch_check_avx() never returns 2)
+        tiers.append(("avx512", "avx"))
+    else:
+        raise Unknown("%s: mcount_save/restore_arch_context are not the expected SSE/AVX[/AVX-512] dispatchers:\n  %s\n  %s" % (path, save, rest))
+    res = {}
+    for name, fn in tiers:
+        res["save_" + name] = parse_moves(src, "mcount_save_arch_context_" + fn)
+        res["restore_" + name] = parse_moves(src, "mcount_restore_arch_context_" + fn)
+    return res
 
 
 WRAPPERS = [("libmcount/mcount.c", "mcount_entry", "__mcount_entry"), ("libmcount/mcount.c", "mcount_exit", "__mcount_exit"),
@@ -302,8 +315,8 @@ def main():
     v.append("")
     v.append("Definition arch_ctx_slot_bytes : Z := %d." % sb)
     v.append("Definition arch_ctx_slots : nat := %d." % ns)
-    v.append("(* the pair used when the ymm state is not enabled, and the pair used when it is *)")
-    for k in ("save_sse", "restore_sse", "save_avx", "restore_avx"):
+    v.append("(* the pairs used when only xmm / the ymm state / the zmm state is enabled (mcount_arch_check_avx() = 0 / 1 / 2) *)")
+    for k in ("save_sse", "restore_sse", "save_avx", "restore_avx", "save_avx512", "restore_avx512"):
         v.append("Definition arch_ctx_%s : list xop :=\n  [ %s ]." % (k, ";\n    ".join(ctx[k])))
     v.append("")
     v.append("(* C wrappers the stubs call: (name, inner hook bracketed by save/restore of xmm0-7, by save/restore of errno) *)")
